@@ -103,6 +103,7 @@ func TestVerifC04(t *testing.T) {
 	vC04SlowPeer("call")
 	vC04DuplicateResponses(4)
 	vC04Relay()
+	vC04ScribbledPeer()
 	if vThorough() {
 		for k := 0; k < 10; k++ {
 			vC04SlowPeer([]string{"reply", "call"}[k%2])
@@ -308,6 +309,61 @@ func vC04SlowPeer(variant string) {
 // no responder may stay parked.
 // A call made from inside a handler: the handler's context carries the key of the peer whose request it serves (J); a server
 // call made with peer.NewCallContext(handlerCtx, K) is addressed to K and must reach K's session, not J's.
+// The Peer a handler finds in its context belongs to that request: a handler which writes to it (the field is exported; a
+// relay which re-addresses "its" peer, say) changes nothing for the requests which follow on the same connection.
+func vC04ScribbledPeer() {
+	s := NewServer()
+	keyA, keyB := vKey(31), vKey(32)
+	var mu sync.Mutex
+	var seen []string
+	h := func(srv interface{}, ctx context.Context, dec func(interface{}) error) (interface{}, error) {
+		in := new(message.Response)
+		if err := dec(in); err != nil {
+			return nil, err
+		}
+		p, ok := peer.FromContext(ctx)
+		mu.Lock()
+		if ok {
+			seen = append(seen, in.CallId+":"+p.PublicKey.String())
+		} else {
+			seen = append(seen, in.CallId+":none")
+		}
+		mu.Unlock()
+		if ok && strings.HasPrefix(in.CallId, "scribble") {
+			p.PublicKey = keyB
+		}
+		return &message.Response{CallId: in.CallId}, nil
+	}
+	s.RegisterService(&ServiceDesc{ServiceName: "verif.Scribble", HandlerType: (*interface{})(nil), Methods: []MethodDesc{{MethodName: "Echo", Handler: h}}}, &vImpl{})
+	trA := vNewParkTr()
+	done := make(chan struct{})
+	defer close(done)
+	s.connMgr.registerConnection(keyA, trA)
+	go s.handleRead(keyA, trA, done)
+	info := map[string]interface{}{"outcome": "ok"}
+	c := vCase{Class: "isolation/handler-writes-to-its-peer", Sig: "scribble", Info: info}
+	for i, tok := range []string{"whoami0", "scribble1", "whoami2", "scribble3", "whoami4"} {
+		app, _ := proto.Marshal(vAppMsg(tok, nil, ""))
+		f := vFrame(&message.Message{Exchange: &message.Message_Request{Request: &message.Request{Method: "Echo", CallId: fmt.Sprintf("00000000-0000-4000-8000-0000000c04%02d", i), Payload: app}}})
+		_ = trA.feed(f)
+		n := i + 1
+		vC04Wait(2*time.Second, func() bool { mu.Lock(); defer mu.Unlock(); return len(seen) >= n })
+	}
+	mu.Lock()
+	info["seen"] = append([]string(nil), seen...)
+	for _, x := range seen {
+		if !strings.HasSuffix(x, ":"+keyA.String()) && c.Fail == "" {
+			c.Fail = "handler-saw-a-key-other-than-its-connections"
+			info["outcome"] = "on the connection authenticated as " + keyA.String() + " a handler saw " + x
+		}
+	}
+	if len(seen) != 5 && c.Fail == "" {
+		c.Fail = "scenario-setup-failed"
+	}
+	mu.Unlock()
+	vEmit(c)
+}
+
 func vC04Relay() {
 	s, keyA, keyB, trA, trB, stop := vC04Server()
 	defer stop()
